@@ -23,6 +23,7 @@ import SkNet.Lemmas.BreakAcyclic
 import SkNet.Lemmas.BreakDirGlobal
 import SkNet.Lemmas.BreakFuel
 import SkNet.Lemmas.BreakDist
+import SkNet.Lemmas.Forest
 
 namespace SkNet.C12
 open SkNet SkNet.Connectivity SkNet.Cycles
@@ -317,6 +318,38 @@ example : (match isBipartite ⟨3, 3, fun i => [(i + 1) % 3, (i + 2) % 3], fun i
 
 /-! ## is_acyclic -/
 
+theorem resolveDirected_false {m : Mat} {directed : Option Bool} (h : resolveDirected m directed = .ok false) :
+    m.isSymmetric = .ok true := by
+  unfold resolveDirected at h
+  split at h
+  · cases h
+  · split at h
+    · cases h
+    · rename_i s hs
+      split at h
+      · rename_i hst; rw [hs, hst]
+      · cases h
+  · split at h
+    · cases h
+    · rename_i s hs
+      have : s = true := by
+        cases s with
+        | true => rfl
+        | false => simp at h
+      rw [hs, this]
+
+/-- the self-loops recorded first are simple cycles -/
+theorem selfLoop_cycles_simple (m : Mat) (hc : m.Canon) (hsq : m.nRow = m.nCol) (d : Bool) :
+    ∀ c ∈ (selfLoops m).map (fun v => [v]), IsSimpleCycle m.nRow m.adj d c := by
+  intro c hcm
+  obtain ⟨v, hv, rfl⟩ := List.mem_map.mp hcm
+  simp only [selfLoops, List.mem_filter, List.mem_range, decide_eq_true_eq] at hv
+  have hmem : v ∈ m.adj v :=
+    (hc v v hv.1).mpr ⟨hsq ▸ hv.1, fun h => by rw [h] at hv; exact absurd hv.2 (by decide)⟩
+  refine ⟨by simp, by simp [hv.1], ?_, Or.inr (Or.inl rfl)⟩
+  show isChain m.adj ([v] ++ [v]) = true
+  simp [isChain, hmem]
+
 /-- the contract of `connected_components(adjacency, directed=True, connection='strong', return_labels=False)`:
     the number of distinct labels of a labelling by strong components -/
 def IsStrongCount (n : Nat) (adj : Nat → List Nat) (k : Nat) : Prop :=
@@ -372,19 +405,72 @@ example : isAcyclic (fun _ => 1) ⟨3, 3, fun i => [(i + 1) % 3], fun i j => if 
 example : isAcyclic (fun _ => 3) ⟨3, 3, fun i => if i < 2 then [i + 1] else [], fun i j => if i < 2 ∧ j = i + 1 then 1 else 0⟩ (some true)
     = .ok true := by rfl
 
-/-! ## get_cycles -/
+/-- the contract of `connected_components(adjacency, directed=False, …, return_labels=False)`:
+    the number of distinct labels of a labelling by the components of the undirected graph -/
+def IsWeakCount (n : Nat) (adj : Nat → List Nat) (k : Nat) : Prop :=
+  ∃ labels, IsLabelling n adj false labels ∧ k = (npUnique labels).length
 
-/-- the self-loops recorded first are simple cycles -/
-theorem selfLoop_cycles_simple (m : Mat) (hc : m.Canon) (hsq : m.nRow = m.nCol) (d : Bool) :
-    ∀ c ∈ (selfLoops m).map (fun v => [v]), IsSimpleCycle m.nRow m.adj d c := by
-  intro c hcm
-  obtain ⟨v, hv, rfl⟩ := List.mem_map.mp hcm
-  simp only [selfLoops, List.mem_filter, List.mem_range, decide_eq_true_eq] at hv
-  have hmem : v ∈ m.adj v :=
-    (hc v v hv.1).mpr ⟨hsq ▸ hv.1, fun h => by rw [h] at hv; exact absurd hv.2 (by decide)⟩
-  refine ⟨by simp, by simp [hv.1], ?_, Or.inr (Or.inl rfl)⟩
-  show isChain m.adj ([v] ++ [v]) = true
-  simp [isChain, hmem]
+/-- the rows of an undirected input: symmetric pattern, no duplicate entry -/
+theorem uok_of_canon {m : Mat} (hc : m.Canon) (hsq : m.nRow = m.nCol) (hs : m.isSymmetric = .ok true)
+    (hrows : ∀ i, i < m.nRow → (m.adj i).Nodup) (hnl : ∀ u, u < m.nRow → u ∉ m.adj u) :
+    SkNet.Forest.UOK m.nRow m.adj :=
+  ⟨Canon.wf hc hsq, Canon.sym hc hs, hnl, hrows⟩
+
+/-- ★ `isAcyclic_undirected_iff`: for a graph taken as undirected (flag `False`, or inferred from a symmetric matrix,
+    no duplicate entry), with scipy's count of the components, `is_acyclic` answers `True` exactly when the graph has
+    no cycle: no self-loop and no simple cycle with three nodes or more. The criterion `n_cc == n_nodes - nnz // 2`
+    is the forest formula, proved by adding the edges one at a time to a union-find labelling
+    (`Lemmas/Forest.lean`: components + edges = nodes + closing edges; a closing edge exists iff a cycle does). -/
+theorem isAcyclic_undirected_iff (nCC : Bool → Nat) (m : Mat) (directed : Option Bool)
+    (hc : m.Canon) (hsq : m.nRow = m.nCol) (hnn : m.NonNeg) (hrows : ∀ i, i < m.nRow → (m.adj i).Nodup)
+    (hd : resolveDirected m directed = .ok false)
+    (hcc : IsWeakCount m.nRow m.adj (nCC false)) :
+    ∃ b, isAcyclic nCC m directed = .ok b ∧ (b = true ↔ ∀ C, ¬ IsSimpleCycle m.nRow m.adj false C) := by
+  have hs := resolveDirected_false hd
+  obtain ⟨labels, hlab, hk⟩ := hcc
+  unfold isAcyclic
+  simp only [hd]
+  by_cases hl : (selfLoops m).length > 0
+  · simp only [hl, ↓reduceIte]
+    refine ⟨false, rfl, ?_⟩
+    simp only [Bool.false_eq_true, false_iff]
+    obtain ⟨i, hi⟩ := List.exists_mem_of_length_pos hl
+    have := selfLoop_cycles_simple m hc hsq false [i] (List.mem_map.mpr ⟨i, hi, rfl⟩)
+    exact fun hall => hall [i] this
+  · simp only [hl, ↓reduceIte, Bool.false_eq_true]
+    refine ⟨_, rfl, ?_⟩
+    have hnoloop : ∀ u, u < m.nRow → u ∉ m.adj u := by
+      intro u hu hmem
+      apply hl
+      apply List.length_pos_of_mem (a := u)
+      simp only [selfLoops, List.mem_filter, List.mem_range, decide_eq_true_eq]
+      exact ⟨hu, Rat.lt_of_le_of_ne (hnn u u) (Ne.symm ((hc u u hu).mp hmem).2)⟩
+    have huok := uok_of_canon hc hsq hs hrows hnoloop
+    have hforest := SkNet.Forest.components_eq_iff_forest huok hlab
+    rw [beq_iff_eq, hk]
+    have hnnz : m.nnz = ((List.range m.nRow).map fun i => (m.adj i).length).sum := rfl
+    rw [hnnz, hforest]
+    constructor
+    · intro hno C hC
+      obtain ⟨_, hlt, hcl, hlen⟩ := id hC
+      rcases hlen with hf | h1 | h3
+      · cases hf
+      · match C, h1, hcl, hlt with
+        | [v], _, hcl, hlt =>
+          have : isChain m.adj ([v] ++ [v]) = true := hcl
+          have hv : v ∈ m.adj v := by simpa [isChain] using this
+          exact hnoloop v (hlt v (by simp)) hv
+      · exact hno ⟨C, hC, h3⟩
+    · intro hno ⟨C, hC, _⟩
+      exact hno C hC
+
+/-- the path 0 — 1 — 2 has one component and two edges: `True`; the triangle: `False` -/
+example : isAcyclic (fun _ => 1) ⟨3, 3, fun i => if i = 1 then [0, 2] else [1], fun i j => if i + j = 1 ∨ i + j = 3 then 1 else 0⟩ none
+    = .ok true := by rfl
+example : isAcyclic (fun _ => 1) ⟨3, 3, fun i => [(i + 1) % 3, (i + 2) % 3], fun i j => if i = j then 0 else 1⟩ none
+    = .ok false := by rfl
+
+/-! ## get_cycles -/
 
 /-- ★ `getCycles_sound` (genuine simple cycles): whatever scipy answered (only the length of its label vector is
     used) and whatever the fuel, every list returned by `get_cycles` is a simple cycle of the graph: distinct
@@ -673,26 +759,6 @@ theorem reach_noLoop_iff (m : Mat) (hwf : WF m.nRow m.adj) {u : Nat} (hu : u < m
       · rw [hxy]; exact ih
       · exact Reach.tail ih ((mem_noLoopRows m x y).mpr ⟨Reach.lt hwf hp hu, he, hxy⟩)
   · exact Reach.mono (fun x y hy => ((mem_noLoopRows m x y).mp hy).2.1)
-
-theorem resolveDirected_false {m : Mat} {directed : Option Bool} (h : resolveDirected m directed = .ok false) :
-    m.isSymmetric = .ok true := by
-  unfold resolveDirected at h
-  split at h
-  · cases h
-  · split at h
-    · cases h
-    · rename_i s hs
-      split at h
-      · rename_i hst; rw [hs, hst]
-      · cases h
-  · split at h
-    · cases h
-    · rename_i s hs
-      have : s = true := by
-        cases s with
-        | true => rfl
-        | false => simp at h
-      rw [hs, this]
 
 /-- ★ `breakCycles_acyclic` and `breakCycles_reach`, undirected graph (flag `False`, or inferred from a symmetric
     matrix; the branch repaired by `fix:` 14b05e63): with scipy's contract for the components of the loop-free
